@@ -191,6 +191,14 @@ pub enum ParserError {
         block: String,
     },
 
+    #[error("{filename}:{error_line}: the content of block {block} is nested more than {limit} levels deep")]
+    NestingTooDeep {
+        filename: String,
+        error_line: u32,
+        block: String,
+        limit: usize,
+    },
+
     #[error(
         "{filename}:{error_line}: The string '{ident}' in block {block} is not a valid identifier"
     )]
